@@ -152,7 +152,7 @@ PROPERTIES = {
         "explanation": "R-BLOCKONLY; R-UNPERMUTE (vector q: rows come back in the order given); R-TOKEN (q / ddof are part of the layer names); R-DISPATCH (quantile / nanquantile are never renamed to a kernel of the other NaN discipline)",
     },
     "C20": {
-        "rules": [M.rule_collide, M.rule_castorder, rule_infresolve, M.rule_varshift, M.rule_accdtype, M.rule_scanacc, M.rule_finite, CD.rule_countwidth, M.rule_varwidth, M.rule_accforward, rule_dispatch, M.rule_nanfinal],
+        "rules": [M.rule_collide, M.rule_castorder, rule_infresolve, M.rule_varshift, M.rule_accdtype, M.rule_scanacc, M.rule_finite, CD.rule_countwidth, M.rule_varwidth, M.rule_accforward, rule_dispatch, M.rule_nanfinal, rule_numbaminmax],
         "thorough": [selftest, seeded_regression],
         "technique": "sentinel-collision pattern on NaN substitutes; dtype plumbing of the engine wrappers; widening table",
         "level_text": "Static: no all-NaN detector compares a result with its own NaN substitute unless conjoined with a valid-member "
@@ -241,7 +241,7 @@ LATER = {
            "refusals test the normalised form of two-spelling options (R-NORMFORM), no in-place mutation of a definite tuple (R-SEQKIND), "
            "blockwise plans see broadcast labels (R-BLOCKBCAST), tuple arities hold for every number of axes (R-ARITY), the key array is meshed "
            "(R-MESHINDEX), axis tuples are sorted (R-AXISORDER). Sixth wave: integer positions for np.unravel_index (R-INTINDEX), no in-place float results in user-typed buffers (R-INPLACECAST), typed placeholder labels (R-PLACEHOLDER), predicate family (R-PREDFAMILY), engine/fill refusal (R-ENGINEFILL). Eager arg-reduction kernels run in an integer dtype (R-INTINDEX kernel clause); same-length gathers guarded for emptiness (R-EMPTYIDX). Zero-length blocks dropped before a blockwise plan (R-ZEROBLOCK); refusals depend on every laziness flag (R-NORMFORM).",
-    "C20": "isfinite never a validity mask (R-FINITE), padding identities never mistaken for absence (R-COLLIDE), wide validity counts (R-COUNTWIDTH). Accumulation dtype forwarded / squares widened (R-ACCFORWARD), variance shift width (R-VARSHIFT[width]), complex identities folded (R-INFRESOLVE), NaN substitutes keep infinities (R-DISPATCH).",
+    "C20": "isfinite never a validity mask (R-FINITE), padding identities never mistaken for absence (R-COLLIDE), wide validity counts (R-COUNTWIDTH). Accumulation dtype forwarded / squares widened (R-ACCFORWARD), variance shift width (R-VARSHIFT[width]), complex identities folded (R-INFRESOLVE), NaN substitutes keep infinities (R-DISPATCH). NaN membership decided from the members, never from an arithmetic total: inf + -inf is NaN (R-NUMBAMINMAX).",
 }
 for _p, _t in LATER.items():
     if _p in PROPERTIES:
